@@ -210,9 +210,9 @@ for D in (1, 2, 3):
         Check('S%d_chunked%s' % (D, suf), props[:1], 'subarray', fn='w_S%d_chunked%s' % (D, suf), params=['ret', 'self', 'c'],
               wrapper=('void', 'CS<%d>* ret, CS<%d> const* self, multi::index c' % (D+1, D), 'new(ret) CS<%d>(self->chunked(c));' % (D+1)),
               cxx={'self': SUB(D), 'ret': SUB(D+1)}, ghosts=ghosts_fn(D) + [(I64, 'g_a'), (I64, 'g_r')],
-              # an empty array cannot be chunked: partitioned_aux_(0) asserts (and divides by zero with assertions off), hence g_n0 > 0
-              requires=base_req + zreq + ['0 < c && INR(c) && REM(g_n0, c) == 0 && g_n0 > 0', 'INR(g_a) && INR(g_r)', 'INOFF(%s)' % CS_],
-              lemmas=WF_lemmas('self', D, dims=[0]) + zlem + ['LEMMA_DIVEXACT(g_n0, c)', 'LEMMA_REMRANGE(g_n0, c)', 'LEMMA_MUL0(c)', 'LEMMA_ASSOC(%s, c, self->stride_)' % NC,
+              # g_n0 == 0 (no chunks) is included: before the fix 09 of known_findings.json partitioned_aux_(0) asserted / divided by zero there
+              requires=base_req + zreq + ['0 < c && INR(c) && REM(g_n0, c) == 0', 'INR(g_a) && INR(g_r)', 'INOFF(%s)' % CS_],
+              lemmas=WF_lemmas('self', D, dims=[0]) + zlem + ['LEMMA_DIVEXACT(g_n0, c)', 'LEMMA_REMRANGE(g_n0, c)', 'LEMMA_MUL0(c)', 'LEMMA_DIV0(c)', 'LEMMA_MUL0(%s)' % CS_, 'LEMMA_MUL0(self->stride_)', 'LEMMA_COMM(c, self->stride_)', 'LEMMA_ASSOC(%s, c, self->stride_)' % NC,
                       'LEMMA_COMM(%s, %s)' % (NC, CS_), 'LEMMA_MULDIV(%s, %s)' % (CS_, NC), 'LEMMA_MULREM(%s, %s)' % (CS_, NC), 'LEMMA_ASSOC(g_a, c, self->stride_)',
                       'LEMMA_DIST(g_f0 + g_r, MUL(g_a, c), self->stride_)', 'LEMMA_MULDIV(g_f0, self->stride_)'],
               ensures=[('leading dimension: size/c chunks, stride c*stride, zero-based', 'ret->stride_ == %s && ret->offset_ == 0 && ret->nelems_ == MUL(%s, ret->stride_)' % (CS_, NC)),
@@ -221,7 +221,7 @@ for D in (1, 2, 3):
                        ('element (a, r) of the result is element a*c+r (by position) of self',
                         'IMPLIES(0 <= g_a && g_a < %s && 0 <= g_r && g_r < c, (ret->base_ + (MUL(g_a, ret->stride_) - ret->offset_) + (MUL(g_f0 + g_r, ret->sub_.stride_) - ret->sub_.offset_)) == %s)'
                         % (NC, addr0('self', 'g_f0 + MUL(g_a, c) + g_r')))],
-              covers=['c == 1 && g_n0 > 1', 'c == g_n0 && c > 1', 'g_a > 0 && g_a < %s && g_r > 0 && g_r < c' % NC],
+              covers=['c == 1 && g_n0 > 1', 'c == g_n0 && c > 1', 'g_a > 0 && g_a < %s && g_r > 0 && g_r < c' % NC, 'g_n0 == 0 && c > 1'],
               assigns=['*ret'], mode='uf', solvers=('cvc5', 'cadical'))
     # -------------------------------------------------------------------- broadcasted(): D -> D+1, stride 0
     Check('S%d_broadcasted' % D, ['C01'], 'subarray',
